@@ -48,3 +48,10 @@ NETNOTE = NOTE_COMMON + " Authenticity of a datagram is decided by provenance (t
 add("C07", "exploration", "property-based testing/fuzzing of the datagram and token parsers inside a staged live server (all protocol states at once) with a before/after state-snapshot oracle; exhaustive prefix x length grid",
     "Mutated, replayed, misplaced, boundary-shaped and random datagrams are presented from every address class and to clients in every state; no call may unwind and a non-authentic datagram must leave every observable of server and clients unchanged; genuine traffic must still work afterwards. Token bytes are fuzzed through read -> client construction -> update.",
     NETNOTE, "DESIGN.md 4/C07")
+
+add("C04", "exploration", "model-based property-based testing: pools of genuine payload datagrams presented in generated orders/forms against a set-of-accepted-sequences reference model of the replay window",
+    "Genuine, replayed, mutated, re-addressed, cross-session, cross-direction and other-protocol / other-key re-sealed payload datagrams are presented to live sessions with sequence choices aimed at the window boundaries (s, s+-1, s-255, s-256, s-257, multiples of 256) at counter magnitudes up to 2^64-5001; both directions of the property are checked (only authentic ones surface, at most once; a fresh in-window genuine one must surface, also after forgeries with the same sequence).",
+    NETNOTE, "DESIGN.md 4/C04")
+add("C19", "exploration", "property-based testing of reply size/address against provenance-labelled inputs in generated server states",
+    "Requests and responses of not-yet-connected clients are presented exactly, padded, truncated, corrupted, expired, from other addresses and repeatedly, plus random bytes, in server states empty / pending / full; every reply must go to the source address and be strictly shorter than the input, and inputs without a valid token or response must get none.",
+    NETNOTE, "DESIGN.md 4/C19")
